@@ -170,7 +170,10 @@ pub fn exec(w: &mut PairWorld, op: &POp) -> Outcome<AppResponse> {
             if *variant == 0 {
                 // attach one unit less than declared for every native asset
                 w.provide_ext(ACCTS[*who], *d0, *d1, None, None, false, Some((d0.saturating_sub(1), d1.saturating_sub(1))))
-            } else { w.provide_malformed(ACCTS[*who], *variant, *d0, *d1) }
+            } else if *variant == 5 && w.assets.iter().any(|a| matches!(a, white_whale_std::pool_network::asset::AssetInfo::NativeToken { .. })) {
+                // well-formed asset list, native amounts declared, NO coin attached at all
+                w.provide_ext(ACCTS[*who], *d0, *d1, None, None, false, Some((0, 0)))
+            } else { w.provide_malformed(ACCTS[*who], if *variant == 5 { 1 } else { *variant }, *d0, *d1) }
         }
         POp::ForeignHookSwap { who, x } => {
             let f = w.foreign.clone(); let pair = w.pair.to_string();
@@ -475,7 +478,8 @@ pub fn gen_case(rng: &mut Rng, len: usize, bias: &Bias) -> PairCase {
             match rng.below(6) {
                 4 | 5 => { let small = rng.chance(1, 2);
                            let d = if small { 1000 + rng.below128(100_000) } else { magnitude(rng, 60).max(1) };
-                           POp::BadFundsProvide { who, d0: d, d1: if rng.chance(1, 2) { d } else { 1 + rng.below128(d.max(2)) }, variant: 1 + rng.below(4) as u8 } }
+                           let v = 1 + rng.below(4) as u8;
+                           POp::BadFundsProvide { who, d0: d, d1: if rng.chance(1, 2) { d } else { 1 + rng.below128(d.max(2)) }, variant: if v == 4 && d % 2 == 0 { 5 } else { v } } }
                 0 if !kinds[dirn as usize] => { let d = 1000 + rng.below128(1_000_000); POp::BadFundsSwap { who, dir: dirn, declared: d, sent: match rng.below(3) { 0 => d - 1, 1 => d + 1, _ => d } } }
                 1 if !kinds[0] || !kinds[1] => POp::BadFundsProvide { who, d0: 1000 + rng.below128(100_000), d1: 1000 + rng.below128(100_000), variant: 0 },
                 2 => POp::ForeignHookSwap { who, x: rng.below128(1_000_000) },
@@ -629,12 +633,12 @@ impl PairCase {
 /// hand-built histories that put the pending protocol fee exactly at, one below and one above the collection threshold
 pub fn threshold_corpus() -> Vec<PairCase> {
     let mut v = vec![];
-    for (kinds, t) in [([false, false], 1000u128), ([false, true], 1000), ([true, false], 1001), ([false, false], 999), ([true, true], 1000), ([false, false], 1001)] {
+    for (kinds, t) in [([false, false], 1000u128), ([false, true], 1000), ([true, false], 1001), ([false, false], 999), ([true, true], 1000), ([false, false], 1001), ([false, false], 1002), ([true, false], 1002)] {
         for dir in [false, true] {
             // pool 1e12/1e12, protocol fee 0.1 %: gross in [t*1000, t*1000+999] gives a protocol fee of exactly t
             let x = t * 1000 + 500 + t; // gross = x - x^2/(1e12+x) ~ x - 1
             let ms = Some(DEC / 2);
-            v.push(PairCase { kinds, fab: !kinds[1] && t == 1001, decs: [6, 6], fees: (DEC / 1000, 3 * DEC / 1000, DEC / 500), ops: vec![
+            v.push(PairCase { kinds, fab: !kinds[1] && t >= 1001, decs: if t == 1002 { [6, 7] } else { [6, 6] }, fees: (DEC / 1000, 3 * DEC / 1000, DEC / 500), ops: vec![
                 POp::Provide { who: 1, d0: 1_000_000_000_000, d1: 1_000_000_000_000, tol: None, receiver: None },
                 POp::Swap { who: 2, dir, x, belief: None, max_spread: ms, to: None },
                 POp::Collect { who: 3 },
@@ -667,6 +671,7 @@ pub fn threshold_corpus() -> Vec<PairCase> {
             POp::BadFundsProvide { who: 3, d0: 70_000, d1: 70_000, variant: 2 },
             POp::BadFundsProvide { who: 4, d0: 70_000, d1: 56_000, variant: 3 },
             POp::BadFundsProvide { who: 4, d0: 70_000, d1: 56_000, variant: 4 },
+            POp::BadFundsProvide { who: 4, d0: 70_000, d1: 56_000, variant: 5 },
             POp::ForeignHookSwap { who: 2, x: 1_000_000 },
             POp::TokenViaNativeSwap { who: 2, dir: false, x: 1_000_000 },
             POp::TokenViaNativeSwap { who: 2, dir: true, x: 1_000_000 },
